@@ -245,9 +245,10 @@ class Ctx:
     def __init__(self):
         self.mode = 'off'          # 'sym' | 'conc' | 'off'
         self.feas_tmo = 1000       # ms, per feasibility query
-        self.sqrt_tmo = 3000
+        self.sqrt_tmo = 800
         self.max_decisions = 400
         self.defer_sides = True
+        self.seed_env = None
         self.uses_pi = False
         self.stats = dict(feas_queries=0, feas_time=0.0, feas_unknown=0, rewrites=0, rewrite_queries=0)
         self.global_decl = {}      # name -> z3 var (harness inputs)
@@ -864,7 +865,7 @@ def sym_sqrt(x):
         ok = False
         nonneg = _const_of(ct) is not None and _const_of(ct) >= 0
         from . import algcert
-        cert, _info = algcert.try_certify(cons, z3.Not(x.t == ct * ct), budget_s=2.0)
+        cert, _info = algcert.try_certify(cons, z3.Not(x.t == ct * ct), budget_s=0.6)
         if cert:
             if nonneg:
                 ok = True
@@ -1018,7 +1019,9 @@ class PathResult:
 def explore(fn, max_paths=64, on_path=None, roots=None):
     """DFS over branch decisions. fn() is re-executed per path. Returns (paths, truncated).
     roots: schedule prefixes to start from (second-round exploration of deferred sides)"""
-    stack = [list(r) for r in roots] if roots else [[]]
+    # stack entries: (schedule prefix, seed environment or None). The seed environment (a solver model of the side being
+    # explored) provides the shadow samples below a deferred side.
+    stack = [(list(r['prefix']), r.get('env')) if isinstance(r, dict) else (list(r), None) for r in roots] if roots else [([], None)]
     out = []
     truncated = False
     restarts = 0
@@ -1026,7 +1029,8 @@ def explore(fn, max_paths=64, on_path=None, roots=None):
         if len(out) >= max_paths:
             truncated = True
             break
-        sched = stack.pop()
+        sched, seed_env = stack.pop()
+        CTX.seed_env = seed_env
         CTX.reset_path(sched)
         CTX.mode = 'sym'
         try:
@@ -1037,7 +1041,7 @@ def explore(fn, max_paths=64, on_path=None, roots=None):
             restarts += 1
             if restarts > 200:
                 raise SymnpUnsupported("too many trig restarts")
-            stack.append(sched)
+            stack.append((sched, seed_env))
             continue
         except SymnpUnsupported as e:
             res = ('unsupported', e)
@@ -1063,8 +1067,23 @@ def explore(fn, max_paths=64, on_path=None, roots=None):
         for i in range(len(sched), len(full)):
             d, forced = full[i]
             if not forced:
-                stack.append(full[:i] + [(not d, True)])
+                stack.append((full[:i] + [(not d, True)], seed_env))
     return out, truncated
+
+
+def seeded_samples(name, default):
+    """shadow samples of an input: random (default) or, below a deferred side, copies of the solver model's value
+    (half of them slightly perturbed)"""
+    env = getattr(CTX, 'seed_env', None)
+    if env and name in env:
+        try:
+            v = builtins.float(F(env[name])) if isinstance(env[name], str) else builtins.float(env[name])
+        except Exception:
+            return default
+        out = _np.full(K_SAMPLES, v)
+        out[K_SAMPLES // 2:] += SAMPLE_RNG.normal(0, 1e-3, K_SAMPLES - K_SAMPLES // 2) * (1 + abs(v))
+        return out
+    return default
 
 
 _VARS_CACHE = {}
